@@ -25,3 +25,15 @@ func TestProbeLegit(t *testing.T) {
 		}
 	}
 }
+
+func TestProbeTableSize(t *testing.T) {
+	tab := table()
+	n, pn := 0, 0
+	for _, r := range tab {
+		for _, p := range r.pos {
+			n += variantCount(r.scn, r.fault, p)
+			pn++
+		}
+	}
+	fmt.Println("scenarios", len(scenarios()), "rows", len(tab), "row-positions", pn, "cells", n)
+}
